@@ -25,7 +25,7 @@ from phonopy import Phonopy  # noqa: E402
 import phonopy._phonopy as phonoc  # noqa: E402
 from phonopy.phonon.group_velocity import GroupVelocity  # noqa: E402
 
-from harness.c14_driver import World, freq_to_lambda, TOL_L, TOL_GV  # noqa: E402
+from harness.c14_driver import World, freq_to_lambda, factor_value, TOL_L, TOL_GV  # noqa: E402
 
 # one direction per position in the history
 DIRS = {1: np.array([0.9, 0.3, -0.2]), 2: np.array([-0.2, 0.5, 0.8]), 3: np.array([0.4, -0.7, 0.3])}
@@ -36,9 +36,10 @@ PATH = [np.zeros(3), np.array([0.125, 0.125, 0.125]), QSTAR]       # radial: q_d
 
 
 class HWorld(World):
-    def fresh(self, nac):
+    def fresh(self, nac, fac="vasp"):
         with contextlib.redirect_stdout(io.StringIO()):
-            ph = Phonopy(self.cell, supercell_matrix=self.S, primitive_matrix=np.eye(3), log_level=0)
+            ph = Phonopy(self.cell, supercell_matrix=self.S, primitive_matrix=np.eye(3), log_level=0,
+                         factor=factor_value(fac))
             if self.fc is None:
                 self.fc = self.sign * self.orc.supercell_fc(self.S, ph.supercell)
             ph.force_constants = self.fc.copy()
@@ -47,11 +48,11 @@ class HWorld(World):
                                      method=("wang" if nac == "wang" else "gonze"))
         return ph
 
-    def gv_dir(self, nac, q, pert):
+    def gv_dir(self, nac, q, pert, fac="vasp"):
         """group velocities of a fresh GroupVelocity object (on a reference object's dynamical matrix)"""
-        key = ("HGV", nac, tuple(np.round(q, 12)), None if pert is None else tuple(pert))
+        key = ("HGV", nac, fac, tuple(np.round(q, 12)), None if pert is None else tuple(pert))
         if key not in self._cache:
-            ph = self.phonopy(nac, False, ref=True)
+            ph = self.phonopy(nac, False, ref=True, fac=fac)
             gvo = GroupVelocity(ph.dynamical_matrix, q_length=None, symmetry=ph.primitive_symmetry,
                                 frequency_factor_to_THz=ph.unit_conversion_factor)
             gvo.run([np.array(q, dtype=float)], perturbation=pert)
@@ -116,8 +117,8 @@ def dir_of(hist, j):
     return None
 
 
-def run_history(w, nac, hist, evid, fresh_cache):
-    ph = w.fresh(nac)
+def run_history(w, nac, hist, evid, fresh_cache, fac="vasp"):
+    ph = w.fresh(nac, fac)
     factor = ph.unit_conversion_factor
     obs = []
     kept = {}
@@ -128,9 +129,9 @@ def run_history(w, nac, hist, evid, fresh_cache):
             obs.append(dict(gvp=[-9], fdir=[-9], fresh=False, exc=repr(ex)[:200]))
             continue
         kept[k] = r
-        fkey = (nac, json.dumps(qu, sort_keys=True), k if qu["dir"] else 0)
+        fkey = (nac, fac, json.dumps(qu, sort_keys=True), k if qu["dir"] else 0)
         if fkey not in fresh_cache:
-            fresh_cache[fkey] = do_query(w.fresh(nac), qu, k)
+            fresh_cache[fkey] = do_query(w.fresh(nac, fac), qu, k)
         o = dict(fresh=same(r, fresh_cache[fkey], factor))
         # group velocities: which stored direction are they computed with
         if r["gv"] is None:
@@ -139,7 +140,7 @@ def run_history(w, nac, hist, evid, fresh_cache):
             cands = [(0, None)] + [(j, DIRS[j]) for j in range(1, k + 1) if hist[j - 1]["kind"] == "qpoints" and hist[j - 1]["dir"]]
             o["gvp"] = []
             for p, vec in cands:
-                if all(np.abs(r["gv"][i] - w.gv_dir(nac, q, vec)).max() / max(1.0, np.abs(r["gv"][i]).max()) < TOL_GV
+                if all(np.abs(r["gv"][i] - w.gv_dir(nac, q, vec, fac)).max() / max(1.0, np.abs(r["gv"][i]).max()) < TOL_GV
                        for i, q in enumerate(r["q"])):
                     o["gvp"].append(p)
         # frequencies: which direction enters the non-analytical term at Gamma
@@ -179,7 +180,7 @@ def run_history(w, nac, hist, evid, fresh_cache):
         ok = np.array_equal(fr, kept[last]["freq"]) and ((g is None) == (kept[last]["gv"] is None)) and \
             (g is None or np.array_equal(g, kept[last]["gv"]))
         rr[name] = last if ok else -2
-    return dict(id=evid, entry=w.entry, nac=nac, hist=hist, obs=obs, reread=rr)
+    return dict(id=evid, entry=w.entry, nac=nac, fac=fac, hist=hist, obs=obs, reread=rr)
 
 
 def main(argv):
@@ -197,7 +198,7 @@ def main(argv):
             worlds[en] = HWorld(en, plan["seed"])
             fresh[en] = {}
         evid += 1
-        events.append(run_history(worlds[en], item["nac"], item["hist"], evid, fresh[en]))
+        events.append(run_history(worlds[en], item["nac"], item["hist"], evid, fresh[en], item.get("fac", "vasp")))
     with open(out_path, "w") as f:
         json.dump(dict(omp=omp, events=events, wall=time.time() - t0), f)
 
